@@ -178,3 +178,28 @@ def graph_is_directed(repo: Repo, fi: FuncInfo, name: str = "G", depth: int = 2)
         # no intra-module call site: the documented contract (bipartite DiGraph view) is assumed
         return True
     return None
+
+
+def writer_sides_independent(rep, oid: str):
+    """view writer: a reaction's reactant entries and product entries are written independently of each other.  An arc that is only written when
+    the species is NOT on the other side (`if s in e.reactants: .. elif s in e.products: ..`) gives a species that occurs on both sides of one
+    reaction (a catalyst, an autocatalytic step) a single arc - every consumer of the view then sees another reaction."""
+    from ..facts import guard_atoms, guards_of
+    from ..core import alpha, parent_map
+    fi = rep.f(CV, "hypergraph_to_bipartite")
+    pm = parent_map(fi.node)
+    bad = []
+    n = 0
+    for c in walk_local(fi.node, into_nested=True):
+        if isinstance(c, ast.Call) and call_name(c) == "add_edge":
+            n += 1
+            for t, s in guard_atoms(guards_of(pm, c, fi.node, early=True)):
+                if isinstance(t, ast.Compare) and len(t.ops) == 1 and isinstance(t.ops[0], (ast.In, ast.NotIn)):
+                    other_side = norm(t.comparators[0]).split(".")[-1] in ("reactants", "products", "reactants.data", "products.data") or \
+                        any(k in norm(t.comparators[0]) for k in (".reactants", ".products"))
+                    negative = (isinstance(t.ops[0], ast.In) and not s) or (isinstance(t.ops[0], ast.NotIn) and s)
+                    if other_side and negative:
+                        bad.append((c, norm(t)))
+    rep.ob(oid, "R5", fi, (not bad) if n else None, alpha(bad[0][0], fi.node)[:80] if bad else f"{n} add_edge call(s)",
+           "reactant arcs and product arcs of a reaction are written independently (a species on both sides gets both arcs)" +
+           (f": this arc is written only when `{bad[0][1]}` fails" if bad else ""), node=bad[0][0] if bad else fi.node)
